@@ -167,7 +167,11 @@ class CHECK(Check):
                   "overall cell is non-scalar; to_overall ratio iff any cell is); difference=0 iff all non-NaN groups equal "
                   "(resp. equal the overall); ratio(between)=1 iff all equal and non-zero; single non-empty group; "
                   "ratio(to_overall)>=ratio(between) for non-negative weighted-mean metrics (false without 'overall between the "
-                  "extremes': proved witness).")
+                  "extremes': proved witness). Review R1: results on extended values (ratio(to_overall) is NaN, -inf or <= 1 for every "
+                  "table; ratio(between_groups) on finite tables is NaN / -inf / min/max, never +inf; difference is NaN or >= 0); the "
+                  "side conditions FiniteCells / hasNonscalar=false are PROVED for the frame of any metric that is finite-or-NaN on "
+                  "every slice (ofFrame_finite); weighted-mean clause for NON-NEGATIVE weights without side conditions "
+                  "(overall_le_between_of_weighted_mean_data; zero-weight groups are NaN cells and skipped, replayed on fairlearn).")
     design_ref = "DESIGN.md section 4, C02"
     quick_cases = 1100
     thorough_cases = 20000
@@ -175,7 +179,7 @@ class CHECK(Check):
     thorough_budget_s = 900
     workers_thorough = 4
     rule = ("two streams: (a) datasets as in C01 (1..40 rows, 1..3 sensitive x 0..2 control features, metric pool incl. the "
-            "signed mean error which is negative/zero, bare or dict, weights) ; (b) arbitrary by_group/overall TABLES pushed "
+            "signed mean error which is negative/zero, bare or dict, strictly POSITIVE integer/dyadic sample weights or none) ; (b) arbitrary by_group/overall TABLES pushed "
             "through the public MetricFrame API with a look-up metric: values from {0,1/2,1,-1,nan,2,-3,3/4,-1/2,1/4,5}, "
             "1..4 groups x 1..3 strata, 1..2 sensitive features (so empty intersections), all-equal groups, zero/negative/NaN "
             "overall. For every metric column all 12 aggregates (min,max x raise/coerce; difference,ratio x between_groups/"
